@@ -325,10 +325,11 @@ Proof.
   destruct (Qltb t0 0 || Qltb (duration w) (last (t0 :: r) 0)); [split; [reflexivity|exact HI]|].
   destruct (negb (inb c (channels w))); [split; [reflexivity|exact HI]|].
   destruct (cv w c); [split; [reflexivity|exact HI]|].
-  destruct (zdiv w c); [split; [reflexivity|exact HI]|]. destruct (kerr w c); [split; [reflexivity|exact HI]|].
+  cbv zeta.
   destruct (usample_ok content w w Hs [] c (Some a) (t0 :: r) s eq_refl Em) as [E1 I1]; auto.
   - intros a' Ha. injection Ha as <-. exact Hc.
-  - cbn [fst snd]. rewrite E1. split; [reflexivity|exact I1].
+  - destruct (zdiv w c); [split; [reflexivity|exact I1]|]. destruct (kerr w c); [split; [reflexivity|exact I1]|].
+    cbn [fst snd]. rewrite E1. split; [reflexivity|exact I1].
 Qed.
 
 Theorem history_independent_simple : forall w content calls, simple_all w = true ->
